@@ -225,3 +225,51 @@ func TwoClones(nrefs int, listing int) {
 	vp.Assert("clone-unaffected-by-a-sibling-clone", s1.n == s2.n && s1.pc == s2.pc && vp.BytesEqual(s1.bytes, s2.bytes) && vp.BytesEqual(s1.text, s2.text))
 	vp.Reach("end")
 }
+
+// SharedFragment: one fragment (an emitter holding nlines listed instructions) appended to two
+// separately created, still empty emitters, which then go different ways: each ends up exactly like
+// an emitter that received the fragment's calls and its own directly, and the fragment itself is
+// unchanged. (Append must copy what it takes: the emitters and the fragment share nothing.)
+func SharedFragment(nlines int) {
+	frag := func(e *asm.Emitter) {
+		for i := 0; i < nlines; i++ {
+			e.LDA_imm8_b(uint8(0x10 + i))
+		}
+	}
+	mk := func(tag string) *asm.Emitter {
+		e := asm.NewEmitter(vp.Bytes("buf"+tag, 64), true)
+		e.AssumeSEP(0x30)
+		return e
+	}
+	f := mk("F")
+	frag(f)
+	before := snapshot(f)
+	a, b := mk("A"), mk("B")
+	a.Append(f)
+	b.Append(f)
+	va, vb := vp.U16("va"), vp.U8("vb")
+	ownA := func(e *asm.Emitter) {
+		e.LDA_abs(va)
+		e.NOP()
+	}
+	ownB := func(e *asm.Emitter) {
+		e.Comment("b")
+		e.LDA_imm8_b(vb)
+		e.NOP()
+		e.NOP()
+	}
+	ownA(a)
+	ownB(b)
+	ownA(a)
+	da, db := mk("DA"), mk("DB")
+	frag(da)
+	ownA(da)
+	ownA(da)
+	frag(db)
+	ownB(db)
+	sa, sda, sb, sdb := snapshot(a), snapshot(da), snapshot(b), snapshot(db)
+	vp.Assert("emitters-that-appended-one-fragment-stay-independent", sa.n == sda.n && sa.pc == sda.pc && vp.BytesEqual(sa.bytes, sda.bytes) && vp.BytesEqual(sa.text, sda.text) &&
+		sb.n == sdb.n && sb.pc == sdb.pc && vp.BytesEqual(sb.bytes, sdb.bytes) && vp.BytesEqual(sb.text, sdb.text))
+	vp.Assert("appended-fragment-is-unchanged", same(before, snapshot(f)))
+	vp.Reach("end")
+}
